@@ -1,4 +1,5 @@
 import StepModel.GenCxx
+import StepModel.RegistryModel
 /-! Line-protocol driver for the exp2cxx / dictionary model (C02).  Input: one schema in the AST line protocol
 written by vlib/schema_gen_c02.py, terminated by `end`; output: the canonical dump in the format of
 harness/h_dict.cc, followed by the mangled names the accessor test needs.  Unknown lines answer `bad-op`. -/
@@ -167,20 +168,59 @@ def handle (s : Schema) (line : String) : Option Schema :=
     | _, _ => none
   | _ => none
 
-partial def loop (h : IO.FS.Stream) (out : IO.FS.Stream) (s : Schema) : IO Unit := do
+/-! registry operation sequences: `reg E a b c`, `reg T …`, `reg S …`, `reg A …` (abstract entities) set the tables in the
+    iteration order the harness observed; `reg run <ops>` answers every op (cursors start at the end: the harness has just
+    finished its reference walks) -/
+open StepModel.Registry in
+def parseRegOp (w : String) : Option StepModel.Registry.Op :=
+  let arg := (w.drop 3).toString
+  match (w.take 2).toString with
+  | "RE" => some (.reset .ent) | "RT" => some (.reset .typ) | "RS" => some (.reset .sch)
+  | "NE" => some (.next .ent) | "NT" => some (.next .typ) | "NS" => some (.next .sch)
+  | "AE" => some (.nextAll .ent) | "AT" => some (.nextAll .typ) | "AS" => some (.nextAll .sch)
+  | "CE" => some .entityCnt | "CF" => some .fullEntCnt
+  | "FE" => some (.find .ent arg) | "FT" => some (.find .typ arg) | "FS" => some (.find .sch arg)
+  | "OC" => some (.objCreate arg)
+  | _ => none
+
+def showRes : StepModel.Registry.Res → String
+  | .unit => "R unit" | .name n => "R name " ++ n | .null => "R null"
+  | .names l => "R names" ++ String.join (l.map (" " ++ ·))
+  | .num n => s!"R num {n}" | .found b => "R found " ++ b01 b
+
+def handleReg (rs : StepModel.Registry.State) (ws : List String) : StepModel.Registry.State × List String :=
+  match ws with
+  | "E" :: l => ({ rs with ents := l }, [])
+  | "T" :: l => ({ rs with types := l }, [])
+  | "S" :: l => ({ rs with schemas := l }, [])
+  | "A" :: l => ({ rs with abstract := l }, [])
+  | "run" :: ops =>
+    match ops.mapM parseRegOp with
+    | none => (rs, ["bad-op"])
+    | some os =>
+      let st0 := { rs with curE := rs.ents.length, curT := rs.types.length, curS := rs.schemas.length }
+      (rs, (StepModel.Registry.run os st0).map showRes ++ ["END"])
+  | _ => (rs, ["bad-op"])
+
+partial def loop (h : IO.FS.Stream) (out : IO.FS.Stream) (s : Schema) (rs : StepModel.Registry.State) : IO Unit := do
   let line ← h.getLine
   if line.isEmpty then return ()
   let t := line.trimAscii.toString
-  if t == "" then loop h out s
+  let ws := (t.splitOn " ").filter (· ≠ "")
+  if t == "" then loop h out s rs
   else if t == "end" then
     out.putStrLn (dumpAll s)
-    loop h out { name := "" }
+    loop h out { name := "" } rs
+  else if ws.head? == some "reg" then
+    let (rs', outl) := handleReg rs ws.tail
+    for l in outl do out.putStrLn l
+    loop h out s rs'
   else
     match handle s line with
-    | some s' => loop h out s'
-    | none => out.putStrLn "bad-op"; loop h out s
+    | some s' => loop h out s' rs
+    | none => out.putStrLn "bad-op"; loop h out s rs
 
 def main : IO Unit := do
   let out ← IO.getStdout
-  loop (← IO.getStdin) out { name := "" }
+  loop (← IO.getStdin) out { name := "" } { ents := [], types := [], schemas := [] }
   out.flush
